@@ -18,7 +18,8 @@ let inj_of = function
   | "peerabort" -> M.TdInjPeerAbort | s -> failwith ("injection " ^ s)
 let mix_of = function
   | "connect" -> M.TdMixNone | "reader" -> M.TdMixReader | "writer" -> M.TdMixWriter
-  | "acceptor" -> M.TdMixAcceptor | "shutdown" -> M.TdMixShutdown | s -> failwith ("caller " ^ s)
+  | "acceptor" -> M.TdMixAcceptor | "shutdown" -> M.TdMixShutdown | "deadline" -> M.TdMixDeadline
+  | s -> failwith ("caller " ^ s)
 
 let memo : (string, M.td_outcome list) Hashtbl.t = Hashtbl.create 64
 let finals phase inj kind t1 =
@@ -33,7 +34,7 @@ let finals phase inj kind t1 =
 
 (* does the model's final outcome o show the caller `kind` with the implementation's result `out`? *)
 let matches kind out cause sdcf (o : M.td_outcome) : bool =
-  let ((((((pab, cw), rd), wr), ac), sh), sdc) = o in
+  let (((((((pab, cw), rd), wr), ac), sh), sdc), dl) = o in
   let cause_ok = match cause with
     | 0 -> pab = M.TdCeAbort0 | 1 -> pab = M.TdCeAbort1 | _ -> true in
   let sdc_ok = match sdcf with 0 -> not sdc | 1 -> sdc | _ -> true in
@@ -54,6 +55,8 @@ let matches kind out cause sdcf (o : M.td_outcome) : bool =
    | "acceptor", "eof" -> ac = M.TdAcEof
    | "acceptor", "stream" -> ac = M.TdAcStream
    | "acceptor", "blocked" -> ac = M.TdAcWait
+   | "deadline", "ended" -> dl = M.TdDlDone      (* the goroutine of an armed read deadline with no reader *)
+   | "deadline", "alive" -> dl = M.TdDlArmed
    | "shutdown", "nil" -> sh = M.TdShNil
    | "shutdown", "err" -> sh = M.TdShErr          (* ErrShutdownIncomplete *)
    | "shutdown", "blocked" -> sh = M.TdShWait || sh = M.TdShWoken
